@@ -13,6 +13,13 @@ C09 — property theorems.  Evaluations on separate VMs are safe to run concurre
 * `vm_never_writes_code`, `isolated_results`: on the VM model, under sequentially consistent
   (i.e. race-free) execution, every interleaving of any number of evaluations gives each
   evaluation exactly the state it reaches alone, and never changes the shared compiled code.
+* `isolated_results_machines`, `registry_isolated`, `shared_immutable_isolated`: what an evaluation
+  gets from state that outlives it — its machine (`vm.Run`), objects out of process-wide registries
+  (`x.__type__.attributes`, …) — is allocated for it or immutable, so writers that outlive other
+  evaluations (context watchers, scripts editing what they were given) never reach it; the pooled /
+  cached variants are kept as contrast definitions with counterexamples
+  (`C09_contrast_pooled_machines`, `C09_contrast_cached_registry`);
+  `registry_hands_out_fresh_or_immutable` checks the hypothesis on the regenerated table.
 -/
 namespace Risor.C09
 
@@ -206,6 +213,128 @@ theorem isolated_results_final (sched : List Nat) (sh : Shared) (pool : Nat → 
   have h0 : SharedOK { code := sh.code, convCache := [], modCache := [] } := sharedOK_empty _
   rw [isolated_results sched sh _ pool h h0 t, hload, hcount]
   rfl
+
+/-! ### state handed out by process-wide allocators: machines and registry objects -/
+
+/-- **Isolated results for resources handed out per request.**  Under `fresh` allocation, for EVERY
+    schedule of acquire / write / observe / release events of any number of agents — including
+    writes by agents whose evaluation has long ended and who kept their reference (a context
+    watcher) — what agent `t` observes is exactly what it observes when only its own events
+    happen. -/
+theorem isolated_results_resources (evs : List REv) (t : Nat) :
+    observed .fresh evs t = observedAlone .fresh evs t :=
+  (rrun_sim t evs RState.empty RState.empty rinv_empty (rrel_empty t)).1
+
+/-- **Isolated results, machines.**  Evaluations started through `vm.Run` (`risor.Eval`,
+    `risor.EvalCode`): every schedule of start / eval-loop trip / finish / cancel events of any number
+    of evaluations, each under its own context that may be cancelled at any time (during its run,
+    right after it returned, much later while other evaluations run).  Hypothesis `hfresh`: the
+    allocator hands every evaluation a machine of its own (the code as it is, tie
+    `machine_sources_match`).  Then the outcome of evaluation `e` — how many trips it made, and the
+    trip at which it saw `halt` set — is its outcome in the schedule that contains only its own
+    events: nothing that outlives another evaluation reaches `e`'s machine. -/
+theorem isolated_results_machines (p : Policy) (hfresh : p = .fresh) (evs : List MEv) (e : Nat) :
+    machineOutcome p evs e = machineOutcomeAlone p evs e := by
+  subst hfresh
+  have hcomm : (evs.filter fun ev => ev.eval == e).map MEv.toR
+      = (evs.map MEv.toR).filter fun r => r.agent == e := by
+    rw [List.filter_map]
+    congr 1
+    apply List.filter_congr
+    intro ev _
+    cases ev <;> rfl
+  have h := isolated_results_resources (evs.map MEv.toR) e
+  simp only [machineOutcomeAlone, machineOutcome, hcomm]
+  unfold observedAlone at h
+  rw [h]
+
+/-- the full demand on a POOLED allocator (released machines are reset and handed out again) -/
+def C09_full_pooled_machines : Prop :=
+  ∀ (evs : List MEv) (e : Nat), machineOutcome .pooled evs e = machineOutcomeAlone .pooled evs e
+
+/-- evaluation 0 runs and finishes; its machine is recycled for evaluation 1; then 0's context is
+    cancelled (the server pattern `Eval(ctx, …); cancel()`): its watcher halts evaluation 1 -/
+def pooledWitness : List MEv :=
+  [.start 0, .instr 0, .finish 0, .start 1, .instr 1, .cancel 0, .instr 1, .finish 1]
+
+/-- **Contrast: a pool of machines breaks it**, however thorough the reset: the watcher goroutine of a
+    finished evaluation still refers to the machine.  Evaluation 1, whose own context is never
+    cancelled, sees `halt` at its second trip. -/
+theorem C09_contrast_pooled_machines : ¬ C09_full_pooled_machines := by
+  intro h
+  have := h pooledWitness 1
+  revert this
+  decide
+
+/-- with fresh machines the same schedule leaves evaluation 1 alone (and the model is not trivial:
+    evaluation 0 cancelled DURING its own run does see it) -/
+example : machineOutcome .fresh pooledWitness 1 = { loads := 2, halted := none }
+    ∧ machineOutcome .fresh [.start 0, .instr 0, .cancel 0, .instr 0] 0 = { loads := 2, halted := some 1 } := by
+  constructor <;> decide
+
+/-- **Objects from registries.**  Scripts obtain an object from a process-wide registry
+    (`x.__type__.attributes`, `m.error_indices`, …), keep it, edit it (`wr`) and print it (`rd`) in any
+    interleaving: when every request is answered with a newly built object, each evaluation
+    observes what it observes alone. -/
+theorem registry_isolated (evs : List REv) (t : Nat) :
+    observed .fresh evs t = observedAlone .fresh evs t := isolated_results_resources evs t
+
+/-- objects nobody can write to may be shared under ANY policy (cached in the registry, pooled,
+    or fresh): schedules without write events -/
+theorem shared_immutable_isolated (p : Policy) (evs : List REv) (t : Nat)
+    (him : ∀ e ∈ evs, e.isWr = false) : observed p evs t = observedAlone p evs t :=
+  (zrun_sim p t evs RState.empty RState.empty allZero_empty allZero_empty ⟨rfl, rfl⟩ him).1
+
+/-- the full demand on a registry that CACHES a mutable object and hands it to every request -/
+def C09_full_cached_registry : Prop :=
+  ∀ (evs : List REv) (t : Nat), observed .cached evs t = observedAlone .cached evs t
+
+/-- **Contrast: a cached mutable object breaks it**: evaluation 0 edits the map it was given,
+    evaluation 1 — which never wrote — prints a different map than alone -/
+theorem C09_contrast_cached_registry : ¬ C09_full_cached_registry := by
+  intro h
+  have := h [.acq 0, .acq 1, .wr 0 7, .rd 1] 1
+  revert this
+  decide
+
+/-- **What the registries of the code as it is hand out.**  For every method of a Risor object
+    type that lives in package-level state (`GoType`, `GoField`, `GoMethod` in `goTypeRegistry`;
+    the `Int` / `Byte` caches; `Nil`, `True`, `False`) and every builtin built in such a method:
+    each `object.Object` it returns is constructed for this request, or is of a type whose values no
+    script can change.  (Table regenerated on every run: ties `registry_returns_match`,
+    `registry_types_match`.)  Together with `registry_isolated` (fresh) and
+    `shared_immutable_isolated` (immutable) this covers every row. -/
+theorem registry_hands_out_fresh_or_immutable :
+    ∀ r ∈ registryRows, r.2.1 = "fresh" ∨ r.2.2.2 ∈ immutableObjTypes := by
+  have h : registryRows.all regRowOK = true := by decide
+  intro r hr
+  have := List.all_eq_true.1 h r hr
+  simp only [regRowOK, Bool.or_eq_true, beq_iff_eq, List.contains_iff_mem] at this
+  exact this
+
+/-- the types called immutable are: none of their methods assigns a receiver field, except the
+    lock-protected converter cache of `GoType` that scripts cannot reach -/
+theorem registry_types_immutable :
+    (∀ t ∈ immutableObjTypes, ∃ r ∈ registryTypeRows, "*" ++ r.1 = t)
+      ∧ ∀ r ∈ registryTypeRows, ∀ f ∈ r.2, (r.1, f) ∈ internalCacheFields := by
+  constructor
+  · decide
+  · have h : registryTypeRows.all regTypeOK = true := by decide
+    intro r hr f hf
+    have := List.all_eq_true.1 h r hr
+    simp only [regTypeOK, List.all_eq_true, List.contains_iff_mem] at this
+    exact this f hf
+
+/-- the rule is not vacuous: it rejects the row a cached attributes map would produce, and the type
+    row a resident `Map` would produce -/
+example : regRowOK ("object.GoType.GetAttr", "field", "attributesMap", "*object.Map") = false
+    ∧ regRowOK ("object.GoType.GetAttr", "fresh", "", "*object.Map") = true
+    ∧ regTypeOK ("object.Map", ["inspectActive", "items"]) = false := by decide
+
+/-- `vm.Run` and the other constructors allocate per request, and a pool is told apart -/
+example : machineFresh machineSourceRows 6 "vm.Run" = true
+    ∧ machineFresh [("vm.Run", "call:vm.acquireVM"), ("vm.acquireVM", "assert:vmPool.Get()")] 6 "vm.Run" = false := by
+  decide
 
 /-! ### non-vacuity -/
 
